@@ -115,7 +115,8 @@ func runC03(c *Ctx) error {
 						idx++
 						if c.quick() {
 							// quick: one rotating length class per header combination (big ones rarely)
-							if (idx+b0+state)%len(lenClasses) != li || (lc.n > 1000 && (b0*7+state)%16 != 0) {
+							// (the empty frame always: "nothing to do for zero bytes" shortcuts are a class of their own)
+							if li != 0 && ((idx+b0+state)%len(lenClasses) != li || (lc.n > 1000 && (b0*7+state)%16 != 0)) {
 								continue
 							}
 						} else if lc.n > 1000 && b0%4 != 0 {
